@@ -823,6 +823,21 @@ func (e *Engine) eval(x ast.Expr, st *State) Value {
 	case *ast.SliceExpr:
 		unsup("slice expression at %s", e.src(ex))
 	case *ast.TypeAssertExpr:
+		// single-value form x.(T): panics unless the dynamic type is T (obligation); the value is the T held by x
+		if ex.Type != nil {
+			if xv, ok := e.eval(ex.X, st).(VTerm); ok && xv.T.Sort == SRef {
+				to := e.typeOf(ex.Type)
+				if _, isIface := to.Underlying().(*types.Interface); !isIface {
+					tn := sanitize(to.String())
+					e.assert(st, mkApp("dyn_is_"+tn, SBool, xv.T), "type-assertion", e.src(ex), nil)
+					so := e.sortOf(to)
+					if so == SRef {
+						return VTerm{T: xv.T, Typ: to}
+					}
+					return e.wrap(mkApp("dyn_as_"+tn+"__"+sortTag(so), so, xv.T), to)
+				}
+			}
+		}
 		unsup("type assertion at %s", e.src(ex))
 	}
 	unsup("expression %T at %s", x, e.src(x))
@@ -859,6 +874,14 @@ func (e *Engine) globalVar(o *types.Var) Value {
 	switch u := o.Type().Underlying().(type) {
 	case *types.Slice:
 		return VSlice{Arr: mkConst(name+".arr", arraySort(SInt, e.elemSort(u.Elem()))), Len: mkConst(name+".len", SInt), Elem: u.Elem()}
+	case *types.Map:
+		// a package-level table (e.g. helper.kindToBits): an unknown but fixed map; every read of it is the same function of
+		// the key (nothing in the module assigns to such tables: a write to one is out of the subset)
+		if _, isSl := u.Elem().Underlying().(*types.Slice); !isSl {
+			ks, vs, _, _ := e.mapSorts(u)
+			e.notes["package-level map "+name+" treated as a fixed table"] = true
+			return VMap{Has: mkConst(name+".has", arraySortK(ks, SBool)), Val: mkConst(name+".val", arraySortK(ks, vs)), Key: u.Key(), Elem: u.Elem()}
+		}
 	}
 	t := mkConst(name, e.sortOf(o.Type()))
 	if o.Type().String() == "error" {
